@@ -260,6 +260,80 @@ theorem members_delList {R : Rings} (wf : Wf R) (k j : Nat) :
   · have : Node.head k ≠ Node.head j := fun h => e (by cases h; rfl)
     simp [e, this, map_erase_head wf]
 
+/-- the four operations the generic `std::swap` performs on two lists: `list tmp(std::move(a)); a = std::move(b); b = std::move(tmp);` and
+the destruction of `tmp` -/
+def listSwapOps (t k k2 : Nat) : List Op :=
+  [.listMoveCtor t k, .listMoveAssign k k2, .listMoveAssign k2 t, .delList t]
+
+/-- **`std::swap` of two lists exchanges their member lists and changes no other list; swapping a list with itself changes
+nothing** (all four steps are valid operations, so `history_rep` applies: no fault, links consistent). -/
+theorem list_swap_members {R : Rings} (wf : Wf R) {t k k2 : Nat} (hk : Node.head k ∈ nodes R) (hk2 : Node.head k2 ∈ nodes R)
+    (ht : Node.head t ∉ nodes R) :
+    validRun R (listSwapOps t k k2) = true ∧
+    ∀ j, members (Spec.run R (listSwapOps t k k2)) j =
+      if j = k then members R k2 else if j = k2 then members R k else if j = t then none else members R j := by
+  have live_iff : ∀ {R' : Rings}, Wf R' → ∀ j, Node.head j ∈ nodes R' ↔ members R' j ≠ none := fun wf' j => by
+    rw [Ne, members_none_iff wf']; exact Iff.symm Classical.not_not
+  have htk : t ≠ k := fun e => ht (e ▸ hk)
+  have htk2 : t ≠ k2 := fun e => ht (e ▸ hk2)
+  have mk : members R k ≠ none := (live_iff wf k).1 hk
+  have mk2 : members R k2 ≠ none := (live_iff wf k2).1 hk2
+  -- step 1
+  have v1 : valid R (.listMoveCtor t k) = true := by simp [valid, ht, hk]
+  have wf1 := Wf_step wf _ v1
+  have m1 := members_listMoveCtor wf v1
+  -- step 2
+  have hk1 : Node.head k ∈ nodes (Spec.step R (.listMoveCtor t k)) := (live_iff wf1 k).2 (by rw [m1]; simp [Ne.symm htk])
+  have hk21 : Node.head k2 ∈ nodes (Spec.step R (.listMoveCtor t k)) := (live_iff wf1 k2).2 (by
+    rw [m1]; by_cases e : k2 = k
+    · simp [e, Ne.symm htk]
+    · simpa [Ne.symm htk2, e] using mk2)
+  have ht1 : Node.head t ∈ nodes (Spec.step R (.listMoveCtor t k)) := (live_iff wf1 t).2 (by rw [m1]; simpa using mk)
+  have v2 : valid (Spec.step R (.listMoveCtor t k)) (.listMoveAssign k k2) = true := by simp [valid, hk1, hk21]
+  have wf2 := Wf_step wf1 _ v2
+  by_cases e : k2 = k
+  · -- self-swap
+    subst e
+    have r2 : Spec.step (Spec.step R (.listMoveCtor t k2)) (.listMoveAssign k2 k2) = Spec.step R (.listMoveCtor t k2) := by
+      simp [Spec.step]
+    have v3 : valid (Spec.step R (.listMoveCtor t k2)) (.listMoveAssign k2 t) = true := by simp [valid, hk1, ht1]
+    have wf3 := Wf_step wf1 _ v3
+    have m3 := members_listMoveAssign wf1 v3 htk
+    have ht3 : Node.head t ∈ nodes (Spec.step (Spec.step R (.listMoveCtor t k2)) (.listMoveAssign k2 t)) :=
+      (live_iff wf3 t).2 (by rw [m3]; simp [htk])
+    have v4 : valid (Spec.step (Spec.step R (.listMoveCtor t k2)) (.listMoveAssign k2 t)) (.delList t) = true := by
+      simp [valid, ht3]
+    refine ⟨by simp only [listSwapOps, validRun, v1, v2, r2, v3, v4, Bool.and_self], fun j => ?_⟩
+    simp only [listSwapOps, Spec.run, r2, members_delList wf3, m3, m1]
+    by_cases a : j = k2
+    · subst a; simp [Ne.symm htk]
+    · by_cases b : j = t
+      · subst b; simp [htk]
+      · simp [a, b]
+  · have m2 := members_listMoveAssign wf1 v2 e
+    have hk22 : Node.head k2 ∈ nodes (Spec.step (Spec.step R (.listMoveCtor t k)) (.listMoveAssign k k2)) :=
+      (live_iff wf2 k2).2 (by rw [m2]; simp [e])
+    have ht2 : Node.head t ∈ nodes (Spec.step (Spec.step R (.listMoveCtor t k)) (.listMoveAssign k k2)) :=
+      (live_iff wf2 t).2 (by simp only [m2, m1]; simpa [htk, htk2] using mk)
+    have v3 : valid (Spec.step (Spec.step R (.listMoveCtor t k)) (.listMoveAssign k k2)) (.listMoveAssign k2 t) = true := by
+      simp [valid, hk22, ht2]
+    have wf3 := Wf_step wf2 _ v3
+    have m3 := members_listMoveAssign wf2 v3 htk2
+    have ht3 : Node.head t ∈ nodes (Spec.step (Spec.step (Spec.step R (.listMoveCtor t k)) (.listMoveAssign k k2)) (.listMoveAssign k2 t)) :=
+      (live_iff wf3 t).2 (by rw [m3]; simp [htk2])
+    have v4 : valid (Spec.step (Spec.step (Spec.step R (.listMoveCtor t k)) (.listMoveAssign k k2)) (.listMoveAssign k2 t)) (.delList t) = true := by
+      simp [valid, ht3]
+    refine ⟨by simp only [listSwapOps, validRun, v1, v2, v3, v4, Bool.and_self], fun j => ?_⟩
+    simp only [listSwapOps, Spec.run, members_delList wf3, m3, m2, m1]
+    have ekk2 : k ≠ k2 := fun h => e h.symm
+    by_cases a : j = k
+    · subst a; simp [ekk2, Ne.symm htk, Ne.symm htk2, e]
+    · by_cases b : j = k2
+      · subst b; simp [a, htk, htk2, Ne.symm htk2]
+      · by_cases c : j = t
+        · subst c; simp [htk, htk2]
+        · simp [a, b, c]
+
 /-- an element is a member of at most one list, at most once -/
 theorem member_of_one_list {R : Rings} (wf : Wf R) {j1 j2 : Nat} {l1 l2 : List Node} {n : Node}
     (h1 : members R j1 = some l1) (h2 : members R j2 = some l2) (m1 : n ∈ l1) (m2 : n ∈ l2) : j1 = j2 ∧ l1.Nodup := by
